@@ -21,7 +21,7 @@ func Bound(t *Truth, n *model.Node, receiver string) time.Duration {
 		b = n.GroupInterval
 	}
 	faults, maxDelay := t.ReceiverMaxDisturbance(receiver)
-	b += time.Second + 2*maxDelay + t.R.Scenario.DispatchStartDelay
+	b += time.Second + 2*maxDelay + t.R.Scenario.DispatchStartDelay + t.R.Scenario.ExtraSlack
 	if faults {
 		to := n.GroupInterval
 		if to < pipelineMinTimeout {
@@ -107,9 +107,12 @@ func Obligations(t *Truth) *Report {
 						for i := 0; i+1 < len(bounds) && !violated; i++ {
 							u, v := bounds[i], bounds[i+1]
 							covered := false
-							// latest success with End <= u
+							// latest success with End <= u (in a cluster: from an instance that knew the alert)
 							for j := len(succ) - 1; j >= 0; j-- {
 								if !succ[j].End.After(u) {
+									if r.InstanceKnows != nil && !r.InstanceKnows(succ[j].Instance, k, succ[j].Tick) {
+										continue
+									}
 									covered = contains(succ[j].Firing(), k)
 									break
 								}
